@@ -100,6 +100,14 @@ EmptyServerVecs(z) ==
     {[fam |-> "server", cfg |-> c, rep |-> r] : c \in EmptyCfgs,
         r \in {{}} \cup {{[build |-> b, counters |-> cs, stacks |-> {}]} : b \in EmptyBuilds, cs \in {{}, {"c"}}}}
 
+(* Blanks inside the bucket list of a collapsed entry.  The syntax is literal: *)
+(* chart:{b1,b2} stands for chart: followed by each bucket exactly as written  *)
+(* between the separators, so `e:{v, w}` lists `e:v` and `e: w` (with the     *)
+(* blank), not `e:w`.  Local counters are named both ways.                     *)
+BlankEntries == {"e:{v, w}", "e:{ v,w }", "e:{v,\tw}", "e:{v ,w}", "e:{v,w}"}
+BlankToks == {"e:v", "e:w", "e: w", "e: v", "e:w ", "e:v ", "e:\tw", "e:v,w", "e:v, w", "e:"}
+BlankVecs(z) == {V("blanks", Cfg({Prog(P1, {V1}, {E(e, D)}, {})}, D), {File(1, B0, 1, BlankToks)}, D \div 2) : e \in BlankEntries}
+
 (* Nested program paths.  Package paths and counter names both contain "/":   *)
 (* program P = example.com/tools lists counters and stacks named gopls/<name>, *)
 (* program P/gopls is a different program of the same configuration.  The     *)
@@ -142,9 +150,9 @@ VecSet == CASE Family = "names"  -> NamesVecs(0)
             [] Family = "nested" -> NestedVecs(0) \cup NestedServerVecs(0)
             [] Family = "edge"   -> ActiveVecs(0) \cup EmptyVecs(0) \cup EmptyServerVecs(0)
             [] Family = "c11"    -> NamesVecs(0) \cup BuildsVecs(0) \cup ServerVecs(0) \cup NestedVecs(0) \cup NestedServerVecs(0)
-                                    \cup ActiveVecs(0) \cup EmptyVecs(0) \cup EmptyServerVecs(0)
+                                    \cup ActiveVecs(0) \cup BlankVecs(0) \cup EmptyVecs(0) \cup EmptyServerVecs(0)
             [] Family = "c01"    -> NamesVecs(0) \cup RatesVecs(0) \cup SharedVecs(0) \cup BuildsVecs(0) \cup SumsVecs(0) \cup NestedVecs(0)
-                                    \cup ActiveVecs(0) \cup EmptyVecs(0)
+                                    \cup ActiveVecs(0) \cup BlankVecs(0) \cup EmptyVecs(0)
 IsSrv(v) == v.fam = "server"
 Vecs == {v \in VecSet : IF IsSrv(v) THEN ConfigOK(CCfg(v.cfg), D) ELSE InDomain(v)}
 
